@@ -166,7 +166,9 @@ class Timeout(Exception):
 
 
 class time_limit(object):
-    """wall-clock guard (SIGALRM) for calls that may hang"""
+    """guard for calls that may hang: `seconds` of CPU time of this process (ITIMER_PROF), so that a verdict does
+    not depend on how busy the machine is; a wall-clock backstop at 8x + 5 s catches a call that blocks without
+    burning CPU"""
 
     def __init__(self, seconds):
         self.seconds = seconds
@@ -175,11 +177,15 @@ class time_limit(object):
         raise Timeout()
 
     def __enter__(self):
+        self._old_prof = signal.signal(signal.SIGPROF, self._h)
         self._old = signal.signal(signal.SIGALRM, self._h)
-        signal.setitimer(signal.ITIMER_REAL, self.seconds)
+        signal.setitimer(signal.ITIMER_PROF, self.seconds)
+        signal.setitimer(signal.ITIMER_REAL, self.seconds * 8 + 5)
 
     def __exit__(self, *a):
+        signal.setitimer(signal.ITIMER_PROF, 0)
         signal.setitimer(signal.ITIMER_REAL, 0)
+        signal.signal(signal.SIGPROF, self._old_prof)
         signal.signal(signal.SIGALRM, self._old)
         return False
 
